@@ -252,9 +252,9 @@ def observe_runtime(ck, items, mode, laws, tag):
                           "rustc_failed_classes": len(failed)}
 
 
-def items_from_cfgs(cfgs, tier, traits_filter=None, entries=("attr", "derive")):
+def items_from_cfgs(cfgs, tier, traits_filter=None, entries=("attr", "derive"), rotate=False):
     items = []
-    for c in cfgs:
+    for ci, c in enumerate(cfgs):
         D = c["D"]
         if traits_filter and not traits_filter(D):
             continue
@@ -263,7 +263,10 @@ def items_from_cfgs(cfgs, tier, traits_filter=None, entries=("attr", "derive")):
         # be compiled through #[derive(Ex)], which registers every helper name
         present = [a for a in cf.ATTRS if c["c"][a] != cf.NOOPT]
         ents = entries if all(a in c["rec"] for a in present) else tuple(e for e in entries if e == "derive")
-        for stag, build in cf.shapes(tier):
+        shp = cf.shapes(tier)
+        if rotate:
+            shp = [shp[ci % len(shp)]]          # quick tier: one shape per configuration, rotating
+        for stag, build in shp:
             for entry in ents:
                 items.append((build(c["c"]), D, entry, stag, c["c"]))
     return items
@@ -309,7 +312,7 @@ def c01(tier):
 def c06(tier):
     ck = dx.Check("C06", tier)
     cfgs, st = mc_cfgs(ck, tier)
-    items = items_from_cfgs(cfgs, tier, lambda D: "Hash" in D)
+    items = items_from_cfgs(cfgs, tier, lambda D: "Hash" in D, rotate=(tier == "quick"))
     events, meta, stats = observe_runtime(ck, items, "distinct", False, "c06")
     n, bad, jst = dx.tlc_judge("Trace_Cmp", "Trace_Cmp.cfg", events, "c06", chunk=max(300, -(-len(events) // 12)))
     ck.add_judge(n, jst)
@@ -342,7 +345,7 @@ def c02(tier):
                          "multi_trait_accepting": sum(1 for c in cfgs if sum(1 for o in c["out"] if o["o"] != "err") >= 2)}
     if ck.notes["model"]["multi_trait_accepting"] == 0:
         raise dx.ToolError("vacuous coherence run")
-    items = items_from_cfgs(cfgs, tier)
+    items = items_from_cfgs(cfgs, tier, rotate=(tier == "quick"))
     events, meta, stats = observe_runtime(ck, items, "coherent", True, "c02")
     n, bad, jst = dx.tlc_judge("Trace_Cmp", "Trace_Cmp.cfg", events, "c02", chunk=max(300, -(-len(events) // 12)))
     ck.add_judge(n, jst)
